@@ -764,6 +764,133 @@ def run(tier="quick", seed=0, only=None):
                 cmp(f"{tag}/second_call/covariance", cov2, ec, inp)
             guarded(tag, oor, inp)
 
+        # the data-determined grid: k(x1, x2) must not depend on which OTHER points are in the call (one kernel matrix for the joint)
+        for d, sizes in ((1, [12]), (2, [9, 7])):
+            base = data_kernel("rbf_ard", d, ())
+            Xa, Xb = U(0, 1, 8, d), U(0.3, 0.7, 4, d)
+            inp = {"kernel": f"GridInterpolationKernel(RBF ard, grid_size={sizes}, num_dims={d})  (grid_bounds=None)", "lengthscale": tl(base.lengthscale.detach()), "X": tl(Xa), "X_inside_range_of_X": tl(Xb),
+                   "calls": "k(cat(X, Xb)) then k(Xb, Xb) then k(cat(X, Xb)) again"}
+            tag = f"grid_interpolation_kernel/data_grid/d{d}/sizes{sizes}"
+
+            def dyn():
+                k = GK.GridInterpolationKernel(base, grid_size=sizes, num_dims=d).double()
+                k.eval()
+                with torch.no_grad():
+                    J = k(torch.cat([Xa, Xb])).to_dense()
+                    g1 = [g.clone() for g in k.grid]
+                    Kbb = k(Xb, Xb).to_dense()
+                    g2 = [g.clone() for g in k.grid]
+                    J2 = k(torch.cat([Xa, Xb])).to_dense()
+                cmp(f"{tag}/block_of_joint_eq_kernel_on_subset", Kbb, J[8:, 8:], inp)
+                rec(f"{tag}/grid_kept_for_inputs_inside_the_grid", all(torch.equal(a, b) for a, b in zip(g1, g2)),
+                    f"grid after k(cat(X, Xb)): dim 0 [{float(g1[0][0]):.4f}, {float(g1[0][-1]):.4f}]; after k(Xb, Xb) with Xb inside the range of X: [{float(g2[0][0]):.4f}, {float(g2[0][-1]):.4f}]", inp)
+                cmp(f"{tag}/joint_reproducible", J2, J, inp)
+            guarded(tag, dyn, inp)
+
+    # ================================================================== (2a') batched models (batch shape (2,): batched data, hyper-parameters, noise)
+    class BGP(gpytorch.models.ExactGP):
+        def __init__(self, x, y, lik, kern, bshape):
+            super().__init__(x, y, lik)
+            self.mean_module = gpytorch.means.ConstantMean(batch_shape=bshape)
+            self.covar_module = kern
+
+        def forward(self, x):
+            return MVN(self.mean_module(x), self.covar_module(x))
+
+    if want("batch"):
+        bs = torch.Size([2])
+        n, d, ns, m = 10, 1, 4, 4
+        X, Xs = U(0.1, 0.9, 2, n, d), U(0.1, 0.9, 2, ns, d)
+        y = N(2, n)
+        ls, osc, mu, s2 = U(0.3, 0.8, 2, 1, 1), U(0.7, 2.0, 2), U(-0.5, 0.5, 2), U(0.05, 0.3, 2, 1)
+        Zb, Wr = U(0.1, 0.9, 2, m, d), N(2, d, 3)
+        inp0 = {"batch_shape": [2], "X": tl(X), "y": tl(y), "X_test": tl(Xs), "lengthscale": tl(ls), "outputscale": tl(osc), "mean_constant": tl(mu), "noise": tl(s2)}
+
+        def bmodel(kind):
+            lik = gpytorch.likelihoods.GaussianLikelihood(batch_shape=bs).double()
+            lik.noise = s2
+            inner = GK.RBFKernel(batch_shape=bs)
+            if kind == "kissgp":
+                kern = GK.ScaleKernel(GK.GridInterpolationKernel(inner, grid_size=12, num_dims=d, grid_bounds=[(0.0, 1.0)]), batch_shape=bs)
+            elif kind == "rff":
+                inner = GK.RFFKernel(num_samples=3, num_dims=d, batch_shape=bs)
+                kern = GK.ScaleKernel(inner, batch_shape=bs)
+            else:
+                kern = GK.InducingPointKernel(GK.ScaleKernel(inner, batch_shape=bs), inducing_points=Zb.clone(), likelihood=lik)
+            g = BGP(X, y, lik, kern, bs).double()
+            if kind == "rff":
+                inner.randn_weights.copy_(Wr)
+            inner.lengthscale = ls
+            (kern.base_kernel if kind == "sgpr" else kern).outputscale = osc
+            g.mean_module.constant.data.copy_(mu)
+            g.eval(); lik.eval()
+            return g, lik
+
+        for kind in ("kissgp", "rff", "sgpr"):
+            for chol, fpv in itertools.product((True, False), (False, True)):
+                tag = f"batch_model/{kind}/batch[2]/{'cholesky' if chol else 'cg'}/fast_pred_var={int(fpv)}"
+                inp = dict(inp0, model=kind, inducing_points=tl(Zb) if kind == "sgpr" else None, randn_weights=tl(Wr) if kind == "rff" else None)
+
+                def bp():
+                    g, lik = bmodel(kind)
+                    with ctx(chol, fpv, False):
+                        out = g(Xs)
+                        mean, cov = out.mean, out.covariance_matrix
+                        XX = torch.cat([X, Xs], -2)
+                        if kind == "sgpr":
+                            bk = g.covar_module.base_kernel
+                            Kf, Kfz, Kzz = bk(XX).to_dense(), bk(XX, Zb).to_dense(), bk(Zb).to_dense()
+                            Q = Kfz @ torch.linalg.solve(Kzz, Kfz.transpose(-1, -2))
+                            A = Q.clone()
+                            A[..., :n, :n] += torch.diag_embed((Kf - Q).diagonal(dim1=-1, dim2=-2)[..., :n])  # default correction on
+                            A[..., n:, n:] = Kf[..., n:, n:]
+                        else:
+                            A = g.covar_module(XX).to_dense()
+                    em, ec = conditional(A, s2.unsqueeze(-1) * torch.eye(n, dtype=D), mu.unsqueeze(-1), mu.unsqueeze(-1), y, n)
+                    cmp(f"{tag}/mean", mean, em, inp, tol_for(chol))
+                    cmp(f"{tag}/covariance", cov, ec, inp, tol_for(chol, base=1e-5 if kind == "rff" else 1e-6))
+                guarded(tag, bp, inp)
+        # KISS-GP with heteroskedastic fixed noise, prediction and fantasy update with fantasy noise
+        noise_f, nf_f = U(0.05, 0.3, n), U(0.05, 0.3, 2)
+        X1, y1, Xs1, Xf1, yf1 = X[0], y[0], Xs[0], U(0.1, 0.9, 2, d), N(2)
+        inp = {"model": "ExactGP(ZeroMean-like ConstantMean 0, ScaleKernel(GridInterpolationKernel(RBF, 12, grid_bounds=[(0,1)])), FixedNoiseGaussianLikelihood(noise))", "X": tl(X1), "y": tl(y1),
+               "noise": tl(noise_f), "X_test": tl(Xs1), "X_fantasy": tl(Xf1), "y_fantasy": tl(yf1), "fantasy_noise": tl(nf_f), "lengthscale": float(ls[0]), "outputscale": float(osc[0])}
+        for fpv in (False, True):
+            tag = f"kissgp_prediction/fixed_noise/fast_pred_var={int(fpv)}"
+            state = {}
+
+            def fnp():
+                lik = gpytorch.likelihoods.FixedNoiseGaussianLikelihood(noise=noise_f.clone()).double()
+                kern = GK.ScaleKernel(GK.GridInterpolationKernel(GK.RBFKernel(), grid_size=12, num_dims=d, grid_bounds=[(0.0, 1.0)])).double()
+                kern.base_kernel.base_kernel.lengthscale = float(ls[0])
+                kern.outputscale = float(osc[0])
+                g = BGP(X1, y1, lik, kern, torch.Size([])).double()
+                g.mean_module.constant.data.fill_(0.0)
+                g.eval(); lik.eval()
+                with ctx(True, fpv, False):
+                    out = g(Xs1)
+                    mean, cov = out.mean, out.covariance_matrix
+                    A = g.covar_module(torch.cat([X1, Xs1])).to_dense()
+                em, ec = conditional(A, torch.diag(noise_f), 0.0, 0.0, y1, n)
+                cmp(f"{tag}/mean", mean, em, inp)
+                cmp(f"{tag}/covariance", cov, ec, inp)
+                state["g"] = g
+            guarded(tag, fnp, inp)
+            ftag = f"kissgp_fantasy/fixed_noise/fast_pred_var={int(fpv)}"
+
+            def fnf():
+                g = state["g"]
+                with ctx(True, fpv, False):
+                    fm = g.get_fantasy_model(Xf1, yf1, noise=nf_f)
+                    out = fm(Xs1)
+                    mean, cov = out.mean, out.covariance_matrix
+                    A = g.covar_module(torch.cat([X1, Xf1, Xs1])).to_dense()
+                em, ec = conditional(A, torch.diag(torch.cat([noise_f, nf_f])), 0.0, 0.0, torch.cat([y1, yf1]), n + 2)
+                cmp(f"{ftag}/mean", mean, em, inp, 1e-5)
+                cmp(f"{ftag}/covariance", cov, ec, inp, 1e-5)
+            if "g" in state:
+                guarded(ftag, fnf, inp)
+
     # ================================================================== (2b) RFF prediction strategy
     class RFFGP(gpytorch.models.ExactGP):
         def __init__(self, x, y, lik, nfeat, d, scale):
